@@ -104,3 +104,5 @@ def run(repo, chk):
            f"every local container that is changed in place in the accumulator / matching code ({n_sites} sites: the record built by build(), the next collection of proceed(), "
            f"the capture map of fits_selector, the rollback journal) is created where it is filled, never a table obtained from another accumulator or activation "
            f"(build() hands out the live table of a root accumulator)" + (f": {leaks}" if leaks else ""))
+    from .shared import build_precedence_obligations
+    build_precedence_obligations(repo, chk, "R03.2", "context values come from the matched outer activation, not from a same-named variable deeper down")
